@@ -386,7 +386,7 @@ impl Prop for C16 {
     fn meta() -> Meta {
         Meta {
             level: "exploration",
-            rule: "Each run is a host session: a cap-pressure program (GOSUB recursion to 31/32/33/40, FN recursion unbounded and bounded at 28-32 under GOSUB frames, 31-40 nested FORs over distinct variables, the same FOR re-entered by GOTO 3000 times, loops abandoned by GOTO with NEXT of outer variables, DIM with products 9999/10000/10001/overflowing, 1-25 subscripts, ill-typed writes through LET / FOR / NEXT / READ / INPUT / parameter binding / implicit array creation / cell writes, or random statements) is entered and run, interleaved by a PRNG scheduler with breaks, CONT, replies, immediate FOR/GOSUB/NEXT/RETURN/DIM, boundary statements and line edits, all protocol-legal in the live state. After EVERY host call the probe snapshot must satisfy: <= 32 frames; <= 32 open loops with pairwise distinct variables; every array has cell count == product of dimensions <= 10000 and element kind matching its `$` suffix; every variable and every frame binding holds a string iff its name ends in `$`. One plain FOR v / NEXT v / NEXT turns the table of open loops `before` into before[..i] (+ v) and touches nothing else (no accumulation). An attempt to exceed a cap with literal operands (GOSUB or a user-function call at 32 frames, FOR of a new variable at 32 loops, DIM of > 10000 cells) must be refused. A refused push must be an OUT OF MEMORY error, leave the state Idle and a REM line must be accepted afterwards. distinct_nontrivial = distinct (frames, loops, arrays, state) trajectory hashes among sessions that reached >= 2 frames or >= 2 loops or a refusal; distinct_states = distinct (frames, loops, array shapes, #variables) snapshots.",
+            rule: "Each run is a host session: a cap-pressure program (GOSUB recursion to 31/32/33/40, FN recursion unbounded and bounded at 28-32 under GOSUB frames, 31-40 nested FORs over distinct variables, the same FOR re-entered by GOTO 3000 times, loops abandoned by GOTO with NEXT of outer variables, DIM with products 9999/10000/10001/overflowing, 1-25 subscripts, ill-typed writes through LET / FOR / NEXT / READ / INPUT / parameter binding / implicit array creation / cell writes, or random statements) is entered and run, interleaved by a PRNG scheduler with breaks, CONT, replies, immediate FOR/GOSUB/NEXT/RETURN/DIM, boundary statements and line edits, all protocol-legal in the live state. After EVERY host call the probe snapshot must satisfy: <= 32 frames; <= 32 open loops with pairwise distinct variables; every array has cell count == product of dimensions <= 10000 and element kind matching its `$` suffix; every variable and every frame binding holds a string iff its name ends in `$`. One plain FOR v / NEXT v / NEXT turns the table of open loops `before` into before[..i] (+ v) and touches nothing else (no accumulation). An attempt to exceed a cap with literal operands (GOSUB or a user-function call at 32 frames, FOR of a new variable at 32 loops, DIM of > 10000 cells) must be refused. Right after a successful RUN call at most one loop and one frame exist. A refused push must be an OUT OF MEMORY error, leave the state Idle and a REM line must be accepted afterwards. distinct_nontrivial = distinct (frames, loops, arrays, state) trajectory hashes among sessions that reached >= 2 frames or >= 2 loops or a refusal; distinct_states = distinct (frames, loops, array shapes, #variables) snapshots.",
             real: &["abasic-core Interpreter (stack / loop_stack caps, DimArray::new, Variables::set and Arrays type validation)"],
             stub: &["the host"],
             assumptions: &["internal state is read through the read-only probe hook (cfg abasic_verif)"],
